@@ -986,13 +986,15 @@ class Effects:
         return ""
 
     def _is_local(self, name: str, f: FuncInfo) -> bool:
-        for a in f.node.args.args + f.node.args.kwonlyargs:
-            if a.arg == name:
-                return True
-        for n in A.walk_no_nested(f.node):
-            if isinstance(n, ast.Name) and n.id == name and isinstance(n.ctx, ast.Store):
-                return True
-        return False
+        cache = self.__dict__.setdefault("_locals_cache", {})
+        loc = cache.get(id(f.node))
+        if loc is None:
+            loc = {a.arg for a in f.node.args.args + f.node.args.kwonlyargs}
+            for n in A.walk_no_nested(f.node):
+                if isinstance(n, ast.Name) and isinstance(n.ctx, ast.Store):
+                    loc.add(n.id)
+            cache[id(f.node)] = loc
+        return name in loc
 
     def _looks_str(self, n: ast.Name, f: FuncInfo) -> bool:
         for a in f.node.args.args:
